@@ -291,8 +291,12 @@ reg(P("C15", "plugins", "c15",
       mc={"quick": [("PluginManagerImplMC", "PluginManagerImpl_mc.cfg", 600),
                     ("PluginManagerImplMC", "PluginManagerImpl_mc_service.cfg", 600),
                     ("PluginManagerImplMC", "PluginManagerImpl_bug1.cfg", 600, "violation"),
-                    ("PluginManagerImplMC", "PluginManagerImpl_bug2.cfg", 600, "violation")],
+                    ("PluginManagerImplMC", "PluginManagerImpl_bug2.cfg", 600, "violation"),
+                    ("PluginManagerRaceMC", "PluginManagerRace_ok.cfg", 600),
+                    ("PluginManagerRaceMC", "PluginManagerRace_bug.cfg", 600, "violation")],
           "thorough": [("PluginManagerImplMC", "PluginManagerImpl_mc_big.cfg", 1500),
+                       ("PluginManagerRaceMC", "PluginManagerRace_ok.cfg", 600),
+                       ("PluginManagerRaceMC", "PluginManagerRace_bug.cfg", 600, "violation"),
                        ("PluginManagerImplMC", "PluginManagerImpl_mc_service.cfg", 600),
                        ("PluginManagerImplMC", "PluginManagerImpl_bug1.cfg", 600, "violation"),
                        ("PluginManagerImplMC", "PluginManagerImpl_bug2.cfg", 600, "violation")]},
